@@ -317,6 +317,9 @@ def str_method(ex, o, m, args, kwargs, st, fr, n):
         return ex.val(VStr(o.t, 'bytes'), st)
     if m in ('startswith', 'endswith', 'find'):
         return ex.val(str_method_pure(o, m, args, ex.reg), st)
+    if m in ('strip', 'lstrip', 'rstrip') and (not args or const_str(args[0].t) is not None) \
+            and not (m in ex.reg.specfuns and not args):
+        return str_strip(ex, o, m, (const_str(args[0].t) if args else WS_BYTES), st)
     if m in ('lower', 'upper', 'strip'):
         if m in ex.reg.specfuns and not args:
             sf = ex.reg.specfuns[m]
@@ -344,6 +347,30 @@ def str_method(ex, o, m, args, kwargs, st, fr, n):
             return ex.reg.externs[m + '_' + const_str(o.t)](ex, st, args, kwargs, fr)
         return ex.val(VStr(z3.String(fresh_name('format')), o.kind), st)
     raise Unsupported('string method %s at %s:%d' % (m, fr.relpath, n.lineno))
+
+
+WS_BYTES = ' \t\n\r\x0b\x0c'
+
+
+def str_strip(ex, o, m, chars, st):
+    """s.strip(chars) for a literal character set, exactly: s == pre + r + post with pre/post made
+    of set characters only and r neither starting nor ending with one (the unique such split)."""
+    if not chars:
+        return ex.val(o, st)
+    cs = z3.Union(*[z3.Re(z3.StringVal(c)) for c in chars]) if len(chars) > 1 else z3.Re(z3.StringVal(chars))
+    pre = z3.String(fresh_name('strip.pre'))
+    post = z3.String(fresh_name('strip.post'))
+    r = z3.String(fresh_name('strip.res'))
+    st.assume(o.t == z3.Concat(pre, r, post))
+    st.assume(z3.InRe(pre, z3.Star(cs)) if m != 'rstrip' else pre == z3.StringVal(''))
+    st.assume(z3.InRe(post, z3.Star(cs)) if m != 'lstrip' else post == z3.StringVal(''))
+    first = z3.SubString(r, 0, 1)
+    last = z3.SubString(r, z3.Length(r) - 1, 1)
+    if m != 'rstrip':
+        st.assume(z3.Or(z3.Length(r) == 0, z3.Not(z3.InRe(first, cs))))
+    if m != 'lstrip':
+        st.assume(z3.Or(z3.Length(r) == 0, z3.Not(z3.InRe(last, cs))))
+    return ex.val(VStr(r, o.kind), st)
 
 
 def str_encode(ex, o, st):
